@@ -5,7 +5,7 @@ from common import tlc, tlc_ok, tlc_must_fail, build_driver, ToolError
 import eng_eval
 
 TIERS = {
-    "quick":    dict(len=4, maxar=3, rand=4000, sigvia=["lit"]),
+    "quick":    dict(len=4, maxar=3, rand=15000, sigvia=["lit"]),
     "thorough": dict(len=5, maxar=4, rand=150000, sigvia=["lit", "doc"]),
 }
 
